@@ -127,6 +127,11 @@ func main() {
 	if v := os.Getenv("VERIF_CHECKS"); v != "" {
 		tc.Checks, _ = strconv.Atoi(v)
 	}
+	if v := os.Getenv("VERIF_FUZZTIME"); v != "" {
+		if d, err := time.ParseDuration(v); err == nil {
+			tc.FuzzTime = d
+		}
+	}
 	shards := tc.Shards
 	if shards == 0 {
 		shards = runtime.NumCPU()
@@ -383,6 +388,13 @@ func printViolated(text string) {
 			}
 		}
 	}
+}
+
+func modArgs(modfile string) []string {
+	if modfile != "" {
+		return []string{"-modfile=" + modfile}
+	}
+	return nil
 }
 
 func trunc(s string, n int) string {
@@ -767,6 +779,32 @@ func fuzz(id, lid, target string, d time.Duration, modfile string, cfg propCfg) 
 	for _, ln := range strings.Split(text, "\n") {
 		if i := strings.Index(ln, "VIOLATION property="); i >= 0 {
 			viol = append(viol, strings.TrimSpace(ln[i:]))
+		}
+	}
+	// a crasher stored by the engine without a violation record: the worker died (fatal error). Convert and confirm.
+	if len(viol) == 0 {
+		if m := regexp.MustCompile(`Failing input written to (\S+)`).FindStringSubmatch(text); m != nil {
+			in := filepath.Join(harness, "props", lid, m[1])
+			rdir := getenv("VERIF_REPLAYS", filepath.Join(root, "replays", lid))
+			os.MkdirAll(rdir, 0o755)
+			sum := sha256.Sum256([]byte(in + text))
+			rp := filepath.Join(rdir, fmt.Sprintf("fuzzcrash-%x.json", sum[:8]))
+			conv := exec.Command("go", append([]string{"test", "-tags", "verif", "-vet=off", "-run=^TestFuzzConvert$"}, append(modArgs(modfile), "./props/"+lid)...)...)
+			conv.Dir = harness
+			conv.Env = append(goEnv, "VERIF_FUZZ_INPUT="+in, "VERIF_FUZZ_REPLAY="+rp)
+			if out, cerr := conv.CombinedOutput(); cerr == nil {
+				bin, _ := build(id, cfg)
+				if replay(id, bin, rp, false) == 1 {
+					viol = append(viol, fmt.Sprintf("VIOLATION property=%s replay=%s", id, rp))
+				} else {
+					os.Remove(rp)
+					infra = append(infra, fmt.Sprintf("fuzz target %s: the engine stored a crasher that does not reproduce in a fresh process", target))
+				}
+				err = nil
+			} else {
+				infra = append(infra, fmt.Sprintf("fuzz target %s: cannot convert the stored crasher: %s", target, tail(string(out), 600)))
+				err = nil
+			}
 		}
 	}
 	// remove crashers the engine stored inside the harness tree
